@@ -235,3 +235,29 @@ Theorem C12_stream_step_from_source :
 Proof. exact StepperProofs.stream_refusals_from_source. Qed.
 Print Assumptions C12_stream_step_from_source.
 (* ==== end of block (unit stepper) ==== *)
+
+(* ==== metadata gates from source (unit meta) ==== *)
+(* The functions a stream.json goes through before any event is emulated - stream.c check_version, system.c is_thread_stream,
+   loom.c loom_name, proc.c proc_stream_get_pid / load_appid, thread.c thread_stream_get_tid / thread_load_metadata, model.c
+   should_enable - GENERATED from the C source (Gen/Meta_gen.v over Emu/MetaPre.v, parson's look-ups with the meaning of
+   Rt/RtMetaDefs.v), called in the order and with the result tests of their C callers (MetaGenProofs.gate_run), accept, ignore
+   and refuse a stream's tree exactly as meta_check says on the look-ups of that tree, refusing function for refusing function
+   (gate_of: check_version covers the two classes MNoVersion / MVersionMismatch).  Hand-written in gate_run: the parse of the
+   file and "top-level value is an object" (load_json), strchr(name, '/') (loom_init_begin), the two string look-ups of
+   report_libovni_version (a loop), "some stream of the process has an app id" (proc_init_end). *)
+From OV Require Emu.MetaPre Gen.Meta_gen Proofs.MetaGenProofs Rt.RtMetaDefs.
+Theorem C12_meta_gates_from_source : forall sx j has_app,
+  MetaGenProofs.gate_run sx j has_app = MetaGenProofs.coarse (meta_check (RtMetaDefs.to_loader_meta j) has_app).
+Proof. exact MetaGenProofs.gates_from_source. Qed.
+Print Assumptions C12_meta_gates_from_source.
+
+Example C12_ex_meta_gates_from_source :
+  MetaGenProofs.gate_run (MetaGenProofs.ex_sx []) (RtMetaDefs.jobj MetaGenProofs.ex_fs) true = MetaGenProofs.GateOk /\
+  MetaGenProofs.gate_run (MetaGenProofs.ex_sx []) (RtMetaDefs.jobj (MetaGenProofs.ex_with RtMetaDefs.k_finished (RtMetaDefs.jnum 2))) true
+    = MetaGenProofs.GateErr MetaGenProofs.GFinished /\
+  MetaGenProofs.gate_run (MetaGenProofs.ex_sx []) (RtMetaDefs.jobj (MetaGenProofs.ex_with RtMetaDefs.k_pid (RtMetaDefs.jnum 0))) true
+    = MetaGenProofs.GateErr MetaGenProofs.GPid /\
+  MetaGenProofs.gate_run (MetaGenProofs.ex_sx []) (RtMetaDefs.jobj (MetaGenProofs.ex_with RtMetaDefs.k_part (RtMetaDefs.jstr [120]))) true
+    = MetaGenProofs.GateIgnored.
+Proof. repeat split; vm_compute; reflexivity. Qed.
+(* ==== end of block (unit meta) ==== *)
